@@ -14,7 +14,7 @@ import (
 
 // RPC is one call of a scenario: what the client does and what the handler does.
 //
-// Client ops (streams): "S<i>" SendMsg(seq i), "C" CloseSend, "H" Header,
+// Client ops (streams): "S<i>" SendMsg(seq i), "E<i>" SendMsg of the empty message, "C" CloseSend, "H" Header,
 // "R" RecvMsg once, "R*" RecvMsg until an error, "T" Trailer, "X" cancel.
 // Client ops (unary): "I" Invoke.
 // Handler ops: "r" RecvMsg once, "r*" RecvMsg until an error, "s<i>" SendMsg,
